@@ -244,11 +244,46 @@ fn history(ctx: &mut Ctx, c: &Case, p: &mut Prng) {
     let _ = cur;
 }
 
+/// B's side alone for an arbitrary VALID point as R_A (its discrete logarithm need not be known): B must answer with
+/// the standard's R_B, S_B and key.
+fn responder_with_point(ctx: &mut Ctx, c: &Case, ra_pt: &(BigUint, BigUint), cls: &str) {
+    let (Some(ska), Some(skb)) = (lib_sk(&c.da), lib_sk(&c.db)) else { return };
+    let pa = r2::mul(&c.da, &r2::g()).unwrap();
+    let pb = r2::mul(&c.db, &r2::g()).unwrap();
+    let (za, zb) = (r2::za(c.ida.as_bytes(), &pa), r2::za(c.idb.as_bytes(), &pb));
+    let w = json!({"case": wit(c), "class": cls, "R_A": hex::encode(r2::encode(ra_pt, false))});
+    ctx.eval();
+    ctx.class(cls);
+    ctx.distinct("resp", &[&r2::b32(&ra_pt.0), &r2::b32(&c.db), &r2::b32(&c.rb)]);
+    let Outcome::Ret(Ok(mut b)) = guard(|| Exchange::new(c.klen, Some(&c.idb), &skb.public_key, &skb, Some(&c.ida), &ska.public_key)) else {
+        ctx.violation("Exchange::new:valid-keys:not-ok", w);
+        return;
+    };
+    let rb_ref = r2::mul(&c.rb, &r2::g()).unwrap();
+    let Some(refb) = r2::exchange(&c.db, &c.rb, &rb_ref, &pa, ra_pt, &za, &zb, false, c.klen) else { return };
+    rng_prepare(&[&c.rb]);
+    let o = guard(|| b.exchange_2(&r2::to_lib_point(ra_pt, &BigUint::one())));
+    let seen = rng_seen();
+    match o {
+        Outcome::Ret(Ok((rb_lib, sb))) if seen.accepted.last() == Some(&c.rb) => {
+            let kb = hk::exchange_key(&b);
+            if r2::from_lib_point(&rb_lib) != Some(rb_ref) || sb != refb.s_b || kb.as_deref() != Some(&refb.key[..]) {
+                ctx.violation(&format!("exchange_2:{}:differs-from-standard", cls), w);
+            }
+        }
+        Outcome::Ret(Ok(_)) => {}
+        o => {
+            let cl = if let Outcome::Ret(Err(_)) = &o { "err" } else { o.class() };
+            ctx.violation(&format!("exchange_2:{}:valid-R_A:{}", cls, cl), w);
+        }
+    }
+}
+
 pub fn run(ctx: &mut Ctx) {
     for (n, ok) in r2::selftest() {
         ctx.selftest(&n, ok);
     }
-    ctx.require(&["annex_kat", "honest_keys_equal", "step2_rejects_invalid_RA", "step3_rejects", "step4_rejects", "klen=1", "klen=16", "klen=200", "kind=OffCurve", "kind=Negated", "kind=OtherPoint", "kind=BitFlipHash", "kind=PermutedHash", "klen_needs_more_than_255_kdf_blocks", "honest_R_rerandomised_representation", "id_non_ascii_utf8", "key_from_gen_keypair", "key_with_jacobian_public_point", "degenerate_dA_shared_point_infinity_at_B", "degenerate_dB_shared_point_infinity_at_A", "coincident_dA_P_eq_xbarR_doubling_at_B", "coincident_dB_P_eq_xbarR_doubling_at_A"]);
+    ctx.require(&["annex_kat", "honest_keys_equal", "step2_rejects_invalid_RA", "step3_rejects", "step4_rejects", "klen=1", "klen=16", "klen=200", "kind=OffCurve", "kind=Negated", "kind=OtherPoint", "kind=BitFlipHash", "kind=PermutedHash", "klen_needs_more_than_255_kdf_blocks", "honest_R_rerandomised_representation", "id_non_ascii_utf8", "key_from_gen_keypair", "key_with_jacobian_public_point", "degenerate_dA_shared_point_infinity_at_B", "degenerate_dB_shared_point_infinity_at_A", "coincident_dA_P_eq_xbarR_doubling_at_B", "coincident_dB_P_eq_xbarR_doubling_at_A", "crafted_valid_R_A"]);
     for s in 0..16 {
         ctx.required.push(format!("subset={:04b}", s));
     }
@@ -287,6 +322,30 @@ pub fn run(ctx: &mut Ctx) {
             match r {
                 Outcome::Ret(Some((true, Some(ka), Some(kb)))) if ka == kb && ka.len() == klen => {}
                 o => ctx.violation("build_ex_pair:honest-run:failed", json!({"klen": klen, "outcome": format!("{:?}", o.class())})),
+            }
+        }
+    }
+    // --- R_A crafted so that an addition of B's on-curve test lands on a carry / reduction boundary (valid points)
+    {
+        let mut pc = ctx.prng("crafted_pts");
+        let reps = ctx.n(1, 8);
+        for _ in 0..reps {
+            let sub = pc.next();
+            let mut q = Prng::new(sub, "cp");
+            for (name, pt) in crafted_points_sharded(&mut q, 1, ctx.shard as u64, ctx.nshards as u64) {
+                let case = Case {
+                    da: rand_scalar(&mut q, &(&c.n - 1u32)),
+                    db: rand_scalar(&mut q, &(&c.n - 1u32)),
+                    ida: ascii_id(&mut q, 8),
+                    idb: ascii_id(&mut q, 9),
+                    klen: 1 + q.below(64) as usize,
+                    ra: BigUint::zero(),
+                    rb: rand_scalar(&mut q, &c.n),
+                    subset: 0,
+                    kind: Kind::OtherPoint,
+                };
+                ctx.class(&format!("crafted:{}", name));
+                responder_with_point(ctx, &case, &pt, "crafted_valid_R_A");
             }
         }
     }
